@@ -37,6 +37,7 @@ def run_mc(module, cfg, workers=4, timeout=900, coverage=False, xmx="4g", extra_
     gen, dist = (int(m[-1][0]), int(m[-1][1])) if m else (0, 0)
     violated = re.findall(r"Invariant (\S+) is violated", out)
     violated += re.findall(r"Action property (\S+) is violated", out)
+    violated += re.findall(r"Temporal property (\S+) was violated", out)
     if "Temporal properties were violated" in out:
         violated.append("temporal")
     assumption_false = re.findall(r"Assumption (line \d+, col \d+ to line \d+, col \d+ of module \S+) is false", out)
